@@ -56,6 +56,15 @@ def gen_case(rng, quick=True):
     dem = [rng.choice([0, 0, 1, 2, 3, 5]) for _ in range(n)]
     ln = [rng.choice([0, 10, 20, 35, 50]) for _ in links]
     c = dict(n=n, links=links, layer=layer, overlap=overlap, dem=dem, len=ln, dup=dup)
+    if rng.random() < 0.4:
+        # the layer as a DataFrame whose two NAMED columns come in the other order, with extra columns, with a non-default index
+        # (valve_layer[['node', 'link']], a GIS table with more attributes, rows selected from a larger table)
+        c["layer_form"] = rng.choice(["node-link", "extra-columns", "extra-first", "index-offset", "node-link+index-offset"])
+        if links and not any((k, links[k][0]) in layer and (k, links[k][1]) in layer for k in range(len(links))):
+            k = rng.randrange(len(links))
+            for nd in links[k]:
+                if (k, nd) not in layer:
+                    layer.append((k, nd))
     r = rng.random()
     if r < 0.15:
         c["style"] = "tokens"
@@ -198,6 +207,18 @@ def run_impl(wntr, c):
         G.add_edge(nn[a], nn[b], key=ln[k])
     layer = pd.DataFrame({"link": [ln[k] for k, _ in c["layer"]], "node": [nn[u] for _, u in c["layer"]]},
                          columns=["link", "node"])
+    form = c.get("layer_form", "")
+    if "extra" in form:
+        # extra attributes are those of the valve, i.e. a function of the (link, node) pair: a duplicated row is a duplicate in every column
+        # (two rows for one link-node pair that differ elsewhere are two different valves on one spot -- not a layer of the statement)
+        layer["diameter"] = [0.1 * ((7 * k + u) % 3 + 1) for k, u in c["layer"]]
+        layer["status"] = ["open"] * len(layer)
+        layer = layer[["diameter", "link", "status", "node"]] if form == "extra-first" else layer[["link", "node", "diameter", "status"]]
+    if "node-link" in form:
+        layer = layer[["node", "link"] + [x for x in layer.columns if x not in ("node", "link")]].copy()
+    if "index-offset" in form:
+        layer.index = [10 * r + 7 for r in range(len(layer))]
+    unidx = (lambda i: (int(i) - 7) // 10) if "index-offset" in form else int
     out = {}
     with warnings.catch_warnings():
         warnings.simplefilter("ignore")
@@ -221,7 +242,7 @@ def run_impl(wntr, c):
         out["node"] = [int(ns[x]) for x in nn]
         out["link"] = [int(ls[x]) for x in ln]
         out["sizes"] = {int(s): (int(sz.loc[s, "node"]), int(sz.loc[s, "link"])) for s in sz.index}
-        out["layer_index_after"] = [int(i) for i in layer.index]
+        out["layer_index_after"] = [unidx(i) for i in layer.index]
         dem = pd.Series([float(x) for x in c["dem"]], index=nn)
         length = pd.Series([float(x) for x in c["len"]], index=ln)
         if c.get("dem_missing"):
@@ -233,7 +254,7 @@ def run_impl(wntr, c):
             length = pd.concat([pd.Series([13.0], index=["ghost-link-1"]), length])
         try:
             at = topo.valve_segment_attributes(layer, ns, ls, demand=dem, length=length)
-            out["attrs"] = {int(i): (int(at.loc[i, "num_surround"]), float(at.loc[i, "demand_increase"]), float(at.loc[i, "length_increase"]))
+            out["attrs"] = {unidx(i): (int(at.loc[i, "num_surround"]), float(at.loc[i, "demand_increase"]), float(at.loc[i, "length_increase"]))
                             for i in at.index}
         except Exception as e:
             out["attr_exc"] = "%s: %r" % (type(e).__name__, e.args[0] if e.args else "")
@@ -323,6 +344,8 @@ class C18(Check):
 
     def judge(self, ctx, c, out, failures, broken, model_line):
         sn, sl, sattr = spec(effective(c))
+        if c.get("layer_form"):
+            ctx.count("layer-form:" + c["layer_form"])
         if c.get("style") == "tokens":
             ctx.count("names:containing-N_-or-L_")
         if c.get("undirected_twice"):
